@@ -260,6 +260,14 @@ func c40Seed(rng *rand.Rand, tag int) (*metadata.InMemoryStore, []string, []stri
 				Config: map[string]string{"cleanup.policy": fmt.Sprintf("v%d", next()), "k": "v"}})
 		}
 	}
+	// a history on top of the initial seed: the state a long-running cluster is in
+	gone, hist := c40History(rng, st, next)
+	tnames = tnames[:0]
+	if m, err := st.Metadata(ctx, nil); err == nil {
+		for _, tp := range m.Topics {
+			tnames = append(tnames, *tp.Topic)
+		}
+	}
 	ng := rng.Intn(5)
 	gperm := rng.Perm(len(c40Groups))
 	var gnames []string
@@ -279,7 +287,7 @@ func c40Seed(rng *rand.Rand, tag int) (*metadata.InMemoryStore, []string, []stri
 				members[fmt.Sprintf("member-%d", next())] = &metadatapb.GroupMember{ClientId: fmt.Sprintf("client-%d", next()), ClientHost: "h",
 					HeartbeatAt: fmt.Sprintf("hb-%d", next()), Assignments: as, Subscriptions: []string{"orders"}, SessionTimeoutMs: int32(next() % 100000)}
 			}
-			_ = st.PutConsumerGroup(ctx, &metadatapb.ConsumerGroup{GroupId: g, State: []string{"stable", "empty", "dead"}[rng.Intn(3)], ProtocolType: "consumer",
+			_ = st.PutConsumerGroup(ctx, &metadatapb.ConsumerGroup{GroupId: g, State: c40GroupStates[rng.Intn(len(c40GroupStates))], ProtocolType: "consumer",
 				Protocol: "range", Leader: "member-x", GenerationId: int32(next() % 1000), Members: members, RebalanceTimeoutMs: int32(next() % 100000)})
 		}
 		// committed offsets, also for topics that do not exist and for groups without metadata
@@ -291,8 +299,219 @@ func c40Seed(rng *rand.Rand, tag int) (*metadata.InMemoryStore, []string, []stri
 			_ = st.CommitConsumerOffset(ctx, g, tn, int32(rng.Intn(4)), next(), fmt.Sprintf("meta-%d", next()))
 		}
 	}
-	desc := map[string]any{"brokers": nb, "topics": tnames, "groups": gnames}
+	// group churn: groups that were deleted again, re-created in another state, commits that outlive their group
+	for k, n := 0, rng.Intn(4); k < n && len(gnames) > 0; k++ {
+		g := gnames[rng.Intn(len(gnames))]
+		switch rng.Intn(3) {
+		case 0:
+			_ = st.DeleteConsumerGroup(ctx, g)
+			hist = append(hist, fmt.Sprintf("DeleteConsumerGroup(%s)", c40Short(g)))
+		case 1:
+			if g != "" {
+				state := c40GroupStates[rng.Intn(len(c40GroupStates))]
+				_ = st.PutConsumerGroup(ctx, &metadatapb.ConsumerGroup{GroupId: g, State: state, ProtocolType: "consumer", GenerationId: int32(next() % 1000)})
+				hist = append(hist, fmt.Sprintf("PutConsumerGroup(%s,%s)", c40Short(g), state))
+			}
+		default:
+			tn := "orders"
+			if len(tnames) > 0 {
+				tn = tnames[rng.Intn(len(tnames))]
+			}
+			_ = st.CommitConsumerOffset(ctx, g, tn, int32(rng.Intn(6)), next(), fmt.Sprintf("meta-%d", next()))
+		}
+	}
+	drift := c40Drift(st)
+	desc := map[string]any{"brokers": nb, "topics": tnames, "groups": gnames, "deleted_topics": gone, "history": hist, "config_partition_drift": drift}
 	return st, tnames, gnames, desc
+}
+
+// every state the group coordinator persists (both spellings it accepts), plus an unknown one and none
+var c40GroupStates = []string{"stable", "empty", "dead", "preparing_rebalance", "completing_rebalance",
+	"Stable", "Empty", "Dead", "PreparingRebalance", "CompletingRebalance", "", "zombie"}
+
+// names CreateTopic accepts (the hostile names of c40Names only get in through snapshots)
+var c40ValidNames = []string{"orders", "events", "payments", "logs_raw", "a", "A.b-c_d", "t0", "metrics.v1", "ORDERS", strings.Repeat("y", 249)}
+
+func c40Short(s string) string {
+	if len(s) > 24 {
+		return fmt.Sprintf("%q…(%d)", s[:24], len(s))
+	}
+	return fmt.Sprintf("%q", s)
+}
+
+// c40Drift lists, through the store's public reads, the topics whose persisted
+// config names a partition count other than the topic's own (the state a tool
+// might be tempted to "repair").
+func c40Drift(st *metadata.InMemoryStore) []string {
+	ctx := context.Background()
+	var out []string
+	m, err := st.Metadata(ctx, nil)
+	if err != nil {
+		return nil
+	}
+	for _, tp := range m.Topics {
+		cfg, err := st.FetchTopicConfig(ctx, *tp.Topic)
+		if err == nil && cfg != nil && int(cfg.Partitions) != len(tp.Partitions) {
+			out = append(out, fmt.Sprintf("%s: config %d, topic %d", c40Short(*tp.Topic), cfg.Partitions, len(tp.Partitions)))
+		}
+	}
+	return out
+}
+
+// c40History drives the store through the kind of history a cluster
+// accumulates, using only the store's own mutators and its snapshot swap
+// (Update, what a broker's metadata watcher calls): configs persisted
+// explicitly (matching, unset or mismatching partition count), partitions
+// added afterwards, refreshed snapshots in which a topic grew, shrank, vanished,
+// came back or changed its error code, topics deleted and re-created, brokers
+// that left the broker list while still leading partitions, offsets moved.
+// It returns the names of topics that no longer exist and a description of the steps.
+func c40History(rng *rand.Rand, st *metadata.InMemoryStore, next func() int64) (gone []string, ops []string) {
+	ctx := context.Background()
+	if rng.Intn(5) == 0 {
+		return nil, nil // a store that only ever saw its initial seed
+	}
+	goneSet := map[string]bool{}
+	parts := func(from, to int, leader int32) []protocol.MetadataPartition {
+		var out []protocol.MetadataPartition
+		for p := from; p < to; p++ {
+			out = append(out, protocol.MetadataPartition{Partition: int32(p), Leader: leader, LeaderEpoch: int32(rng.Intn(9)), Replicas: []int32{leader}, ISR: []int32{leader}})
+		}
+		return out
+	}
+	cfgFor := func(name string, np int32) *metadatapb.TopicConfig {
+		return &metadatapb.TopicConfig{Name: name, Partitions: np, ReplicationFactor: 1, RetentionMs: next(), RetentionBytes: next(), SegmentBytes: next(),
+			CreatedAt: fmt.Sprintf("created-%d", next()), Config: map[string]string{"cleanup.policy": fmt.Sprintf("v%d", next()), "retention.ms": fmt.Sprint(next())}}
+	}
+	note := func(f string, a ...any) { ops = append(ops, fmt.Sprintf(f, a...)) }
+	for i, n := 0, 1+rng.Intn(9); i < n; i++ {
+		m, err := st.Metadata(ctx, nil)
+		if err != nil {
+			return
+		}
+		state := *m
+		ti := -1
+		if len(state.Topics) > 0 {
+			ti = rng.Intn(len(state.Topics))
+		}
+		name, np := "", 0
+		if ti >= 0 {
+			name, np = *state.Topics[ti].Topic, len(state.Topics[ti].Partitions)
+		}
+		switch rng.Intn(13) {
+		case 0: // config persisted explicitly, partition count as the topic has it
+			if ti >= 0 {
+				err := st.UpdateTopicConfig(ctx, cfgFor(name, int32(np)))
+				note("UpdateTopicConfig(%s,partitions=%d)=%v", c40Short(name), np, err)
+			}
+		case 1: // ... with the count left for the store to resolve
+			if ti >= 0 {
+				err := st.UpdateTopicConfig(ctx, cfgFor(name, 0))
+				note("UpdateTopicConfig(%s,partitions=0)=%v", c40Short(name), err)
+			}
+		case 2, 3: // ... carrying a count that is not the topic's
+			if ti >= 0 {
+				bad := int32(np + 1 + rng.Intn(3))
+				if np > 1 && rng.Intn(2) == 0 {
+					bad = int32(1 + rng.Intn(np-1))
+				}
+				err := st.UpdateTopicConfig(ctx, cfgFor(name, bad))
+				note("UpdateTopicConfig(%s,partitions=%d; topic has %d)=%v", c40Short(name), bad, np, err)
+			}
+		case 4: // partitions added after a config was persisted
+			if ti >= 0 {
+				if rng.Intn(2) == 0 {
+					_ = st.UpdateTopicConfig(ctx, cfgFor(name, int32(np)))
+				}
+				to := int32(np + 1 + rng.Intn(3))
+				err := st.CreatePartitions(ctx, name, to)
+				note("CreatePartitions(%s,%d)=%v", c40Short(name), to, err)
+			}
+		case 5, 6: // refreshed snapshot: the topic grew or shrank; its stored config is not rewritten
+			if ti >= 0 {
+				tp := &state.Topics[ti]
+				if np > 1 && rng.Intn(2) == 0 {
+					tp.Partitions = tp.Partitions[:1+rng.Intn(np-1)]
+				} else {
+					tp.Partitions = append(tp.Partitions, parts(np, np+1+rng.Intn(3), int32(rng.Intn(4)))...)
+				}
+				if rng.Intn(4) == 0 {
+					tp.ErrorCode = int16(rng.Intn(2) * 3)
+				}
+				st.Update(state)
+				note("Update(snapshot: %s %d -> %d partitions, error code %d)", c40Short(name), np, len(tp.Partitions), tp.ErrorCode)
+			}
+		case 7: // refreshed snapshot without the topic (config, offsets, commits stay behind)
+			if ti >= 0 {
+				state.Topics = append(state.Topics[:ti], state.Topics[ti+1:]...)
+				st.Update(state)
+				goneSet[name] = true
+				note("Update(snapshot without %s)", c40Short(name))
+			}
+		case 8: // a topic that was gone is back in a refreshed snapshot, with another layout
+			var back []string
+			for g := range goneSet {
+				if g != "" {
+					back = append(back, g)
+				}
+			}
+			sort.Strings(back) // map order must not leak into the case list
+			if len(back) > 0 {
+				g := back[rng.Intn(len(back))]
+				k := 1 + rng.Intn(5)
+				state.Topics = append(state.Topics, protocol.MetadataTopic{Topic: kmsg.StringPtr(g), TopicID: metadata.TopicIDForName(g), Partitions: parts(0, k, int32(rng.Intn(3)))})
+				st.Update(state)
+				delete(goneSet, g)
+				note("Update(snapshot with %s back, %d partitions)", c40Short(g), k)
+			}
+		case 9: // deleted through the store, maybe re-created
+			if ti >= 0 {
+				err := st.DeleteTopic(ctx, name)
+				note("DeleteTopic(%s)=%v", c40Short(name), err)
+				goneSet[name] = true
+				if rng.Intn(2) == 0 {
+					k := int32(1 + rng.Intn(5))
+					if _, err := st.CreateTopic(ctx, metadata.TopicSpec{Name: name, NumPartitions: k, ReplicationFactor: 1}); err == nil {
+						delete(goneSet, name)
+						note("CreateTopic(%s,%d) again", c40Short(name), k)
+					}
+				}
+			}
+		case 10: // created through the store
+			nn := c40ValidNames[rng.Intn(len(c40ValidNames))]
+			k := int32(1 + rng.Intn(5))
+			_, err := st.CreateTopic(ctx, metadata.TopicSpec{Name: nn, NumPartitions: k, ReplicationFactor: int16(rng.Intn(2))})
+			if err == nil {
+				delete(goneSet, nn)
+			}
+			note("CreateTopic(%s,%d)=%v", c40Short(nn), k, err)
+		case 11: // brokers leave / are replaced while partitions still name them as leaders; controller may be one of them
+			switch rng.Intn(3) {
+			case 0:
+				state.Brokers = nil
+			case 1:
+				if len(state.Brokers) > 0 {
+					state.Brokers = state.Brokers[1:]
+				}
+			default:
+				state.Brokers = []protocol.MetadataBroker{{NodeID: int32(7 + rng.Intn(3)), Host: fmt.Sprintf("replacement-%d", next()), Port: 9092}}
+			}
+			state.ControllerID = int32(rng.Intn(10))
+			st.Update(state)
+			note("Update(snapshot: %d broker(s), controller %d)", len(state.Brokers), state.ControllerID)
+		default: // offsets move, also on partitions a later snapshot dropped
+			if ti >= 0 {
+				p := int32(rng.Intn(np + 2))
+				_ = st.UpdateOffsets(ctx, name, p, next())
+				note("UpdateOffsets(%s,%d)", c40Short(name), p)
+			}
+		}
+	}
+	for g := range goneSet {
+		gone = append(gone, g)
+	}
+	sort.Strings(gone)
+	return gone, ops
 }
 
 func c40Str(rng *rand.Rand, known []string, pool []string) string {
@@ -323,7 +542,7 @@ var c40Junk = []string{
 
 // c40Args builds the JSON text of the arguments member for one call from the
 // tool's own published input schema.
-func c40Args(rng *rand.Rand, schema map[string]any, tnames, gnames []string) (json.RawMessage, string) {
+func c40Args(rng *rand.Rand, schema map[string]any, tnames, gnames, gone []string) (json.RawMessage, string) {
 	props, _ := schema["properties"].(map[string]any)
 	var keys []string
 	for k := range props {
@@ -345,6 +564,9 @@ func c40Args(rng *rand.Rand, schema map[string]any, tnames, gnames []string) (js
 		typ := fmt.Sprint(p["type"])
 		isArr := strings.Contains(typ, "array")
 		pool, known := c40Names, tnames
+		if len(gone) > 0 && rng.Intn(3) == 0 { // names of topics that used to exist (configs and commits may have outlived them)
+			pool = gone
+		}
 		if strings.Contains(k, "group") {
 			pool, known = c40Groups, gnames
 		}
@@ -468,7 +690,7 @@ type c40Step struct {
 
 func TestVerifC40Tools(t *testing.T) {
 	r := verifkit.Start(t, "C40", "tools")
-	defer r.Finish("per case: a fresh real InMemoryStore seeded through its own mutators (0-6 topics incl. hostile names, partition offsets, topic configs, 0-4 consumer groups, committed offsets; every value unique), wrapped by a recording decorator, served by the real mcpserver.NewServer over the SDK's in-memory transports; tools are enumerated with tools/list and every listed tool is called with arguments generated from its own input schema (absent, {}, non-object JSON, missing/null/wrong-typed fields, existing / near-miss / hostile / 300-char names, 300-800 element lists, undeclared fields named after mutations), plus unknown and mutation-sounding tool names, plus one concurrent round of all tools; some cases inject read failures or a cancelled context. Oracle per call: the decorator saw zero calls of the 8 mutating Store methods AND a complete dump of the store (cluster state, topics, partition offsets, consumer offsets+metadata, groups, configs; taken under the store's lock by an overlaid dump method) is identical before and after; and identical to the dump taken before the first call at the end of the case. non-trivial = the call reached the store (>=1 read) while the store held topics and (groups or offsets)",
+	defer r.Finish("per case: a fresh real InMemoryStore seeded through its own mutators (0-6 topics incl. hostile names, partition offsets, topic configs, 0-4 consumer groups in every coordinator state, committed offsets; every value unique) and then, in 4 of 5 cases, driven through a 1-9 step PRNG history by the same mutators and the store's snapshot swap (configs persisted with the topic's / no / another partition count, CreatePartitions after a persisted config, refreshed snapshots in which a topic grew, shrank, changed its error code, vanished or came back with another layout, DeleteTopic with and without re-creation, CreateTopic, brokers leaving the broker list while still named as leaders, offsets moved on dropped partitions, groups deleted / re-put in another state, commits outliving group or topic), wrapped by a recording decorator, served by the real mcpserver.NewServer over the SDK's in-memory transports; tools are enumerated with tools/list and every listed tool is called with arguments generated from its own input schema (absent, {}, non-object JSON, missing/null/wrong-typed fields, existing / near-miss / hostile / 300-char names, 300-800 element lists, undeclared fields named after mutations), plus unknown and mutation-sounding tool names, plus one concurrent round of all tools; some cases inject read failures or a cancelled context. Oracle per call: the decorator saw zero calls of the 8 mutating Store methods AND a complete dump of the store (cluster state, topics, partition offsets, consumer offsets+metadata, groups, configs; taken under the store's lock by an overlaid dump method) is identical before and after; and identical to the dump taken before the first call at the end of the case. non-trivial = the call reached the store (>=1 read) while the store held topics and (groups or offsets); the run is inconclusive unless a fifth of the stores held a persisted config whose partition count differs from its topic's and every store-reading tool answered over such a store",
 		"the statement's 'metadata store' is exercised as the real InMemoryStore behind the Store interface; the decorator verdict (no mutating method called) carries to any Store implementation, the dump verdict only to the in-memory one",
 		"store methods are classified read/mutating from the interface's documented contract",
 		"a watchdog context of 60 s per call only guards against a hung transport: its firing is inconclusive")
@@ -478,6 +700,19 @@ func TestVerifC40Tools(t *testing.T) {
 		rng := r.Rand(ci)
 		inner, tnames, gnames, desc := c40Seed(rng, ci+1)
 		st := newC40Store(inner)
+		gone, _ := desc["deleted_topics"].([]string)
+		drift, _ := desc["config_partition_drift"].([]string)
+		hist, _ := desc["history"].([]string)
+		if len(drift) > 0 {
+			r.Count("cases_with_config_partition_drift", 1)
+		}
+		if len(gone) > 0 {
+			r.Count("cases_with_deleted_topics", 1)
+		}
+		r.Count("history_steps", int64(len(hist)))
+		for _, h := range hist {
+			r.Seen("history_step_kinds", strings.SplitN(h, "(", 2)[0])
+		}
 		mode := rng.Intn(6) // 0..2 plain, 3 read failures, 4 cancelled ctx for some calls, 5 no metrics provider
 		if mode == 3 {
 			st.failEach = 1 + rng.Intn(4)
@@ -571,6 +806,9 @@ func TestVerifC40Tools(t *testing.T) {
 			r.Count("store_reads", int64(reads))
 			if toolsSeen[name] && reads > 0 {
 				r.Seen("tools_reaching_store", name)
+				if len(drift) > 0 && outcome == "ok" {
+					r.Seen("tools_answering_over_drifted_configs", name)
+				}
 			}
 			if mutAfter != mutBefore {
 				violated = true
@@ -606,7 +844,7 @@ func TestVerifC40Tools(t *testing.T) {
 		// every listed tool at least twice, then random tools, then unknown names
 		for _, tl := range tools {
 			for k := 0; k < 2; k++ {
-				args, kind := c40Args(rng, tl.schema, tnames, gnames)
+				args, kind := c40Args(rng, tl.schema, tnames, gnames, gone)
 				if k == 0 && rng.Intn(2) == 0 { // a well-formed call that names existing objects
 					obj := map[string]any{}
 					props, _ := tl.schema["properties"].(map[string]any)
@@ -632,13 +870,13 @@ func TestVerifC40Tools(t *testing.T) {
 		}
 		for k := 0; k < 6; k++ {
 			tl := tools[rng.Intn(len(tools))]
-			args, kind := c40Args(rng, tl.schema, tnames, gnames)
+			args, kind := c40Args(rng, tl.schema, tnames, gnames, gone)
 			callOnce(tl.name, args, kind, mode == 4 && rng.Intn(3) == 0)
 		}
 		for k := 0; k < 2; k++ {
 			name := c40UnknownTools[rng.Intn(len(c40UnknownTools))]
 			tl := tools[rng.Intn(len(tools))]
-			args, kind := c40Args(rng, tl.schema, tnames, gnames)
+			args, kind := c40Args(rng, tl.schema, tnames, gnames, gone)
 			callOnce(name, args, "unknown_tool/"+kind, false)
 		}
 		// one concurrent round of every tool
@@ -653,7 +891,7 @@ func TestVerifC40Tools(t *testing.T) {
 			}
 			var jobs []job
 			for _, tl := range tools {
-				a, _ := c40Args(rng, tl.schema, tnames, gnames)
+				a, _ := c40Args(rng, tl.schema, tnames, gnames, gone)
 				jobs = append(jobs, job{tl.name, a})
 			}
 			for _, j := range jobs {
@@ -707,6 +945,10 @@ func TestVerifC40Tools(t *testing.T) {
 	// a run in which some listed tool never got as far as the store decided nothing about that tool
 	r.Floor("tools_reaching_store", int64(len(names)-c40StorelessTools(names)))
 	r.Floor("cases_with_topics_and_groups", 20)
+	r.Floor("cases_with_config_partition_drift", int64(n/5))
+	r.Floor("cases_with_deleted_topics", int64(n/10))
+	r.Floor("tools_answering_over_drifted_configs", int64(len(names)-c40StorelessTools(names)))
+	r.Floor("history_step_kinds", 7)
 	r.Floor("outcome_ok", 100)
 	r.Floor("outcome_tool_error", 20)
 }
